@@ -41,7 +41,13 @@ Definition ref_eqb (p q : Z * Z * string) : bool := rbond_eqb p q.
 Definition to_ok keep m exp := pyres_eqb rmol_eqb (to_mol keep m) exp.
 Definition from_ok symt impls cs r exp :=
   pyres_eqb cmol_eqb (from_mol (sym_of symt) impls (fst (from_conformers (List.length (fst r)) cs)) r) exp.
-Definition tconf_ok xy confs exp := list_eqb conf_eqb (to_conformers xy confs) exp.
+Definition tconf_ok nums xy confs exp := pyres_eqb (list_eqb conf_eqb) (to_conformers_dict nums xy confs) exp.
+Definition to_err_ok keep m xy confs exp :=
+  pyres_eqb (fun _ _ => false)
+    (match to_mol keep m with
+     | Err e => Err e
+     | Ok _ => match to_conformers_dict (map fst (fst m)) xy confs with Err e => Err e | Ok _ => Ok tt end
+     end) exp.
 Definition fconf_ok n cs xy confs :=
   let r := from_conformers n cs in list_eqb xy_eqb (fst r) xy && list_eqb (list_eqb pos_eqb) (snd r) confs.
 Definition ttag_ok hs order env s exp := pyres_eqb (option_eqb String.eqb) (to_chiral_tag (isH_of hs) order env s) exp.
@@ -350,9 +356,11 @@ def corr_to(cs, tag, m, keep=True):
     tap = TapTo()
     rd = tap.run(m, keep_mapping=keep)
     meta = (tag, 'to', keep)
+    dconfs = lst([lst(list(c.items()), lambda kv: tup(zraw(kv[0]), pos_term(kv[1]))) for c in (snap['confs'] or [])])
+    xys = lst([pair_term(t[7:9]) for t in snap['atoms']])
     if tap.pre is None:
         x = exn_name(tap.exc)
-        cs.add_big(f'to_ok {b(keep)} ({atoms}, {bonds}) (Err {x})', meta)
+        cs.add_big(f'to_err_ok {b(keep)} ({atoms}, {bonds}) {xys} {dconfs} (Err {x})', meta)
         ck.case(('to', tag, keep), nontrivial=False)
         ck.count('to:Err ' + x)
         return rd, tap
@@ -403,18 +411,10 @@ def corr_to(cs, tag, m, keep=True):
                (tag, 'to-bond-stereo', n, mm, st, name, sa))
         ck.count('to-bond-stereo:' + ('none' if name == 'STEREONONE' else 'written') + (':labelled' if st is not None else ''))
         ck.case(('to-bs', tag, n, mm), nontrivial=st is not None)
-    # conformers
-    idx = {n: i for i, n in enumerate(nums)}
-    confs = []
-    for c in snap['confs'] or []:
-        size = max(idx[n] for n in c) + 1 if c else 0
-        ps = [(0, 0, 0)] * size
-        for n, p in c.items():
-            ps[idx[n]] = p
-        confs.append(ps)
+    # conformers, from the dictionaries as the code walks them
+    confs = snap['confs'] or []
     if confs or any(t[7] or t[8] for t in snap['atoms']) or len(pre['confs']) != 1 or cs.rng.random() < 0.1:
-        cs.add_big(f'tconf_ok {lst([pair_term(t[7:9]) for t in snap["atoms"]])} {lst(confs, lambda c: lst(c, pos_term))} {lst(pre["confs"], conf_term)}',
-                   (tag, 'to-conformers', len(confs)))
+        cs.add_big(f'tconf_ok {lst(nums, zraw)} {xys} {dconfs} (Ok {lst(pre["confs"], conf_term)})', (tag, 'to-conformers', len(confs)))
     ck.count(f'to-conformers:{1 + len(confs)}')
     return rd, tap
 
@@ -489,6 +489,9 @@ def corr_from(cs, tag, rd):
         ck.count('from-bond-stereo:' + name.lower() + (':label' if st is not None else ':no label'))
         ck.case(('from-bs', tag, n, mm), nontrivial=st is not None)
     confs = [[c[n] for n in sorted(c)] for c in (pre['confs'] or [])]
+    if any(list(c) != list(range(1, len(rsnap['atoms']) + 1)) for c in (pre['confs'] or [])):
+        # _conformers must be keyed by the new atom numbers 1..N in order: {n: ... for n, v in enumerate(positions, 1)}
+        cs.add_big('false', (tag, 'from-conformers: keys of _conformers are not 1..N', [list(c)[:5] for c in pre['confs']]))
     if rsnap['confs'] or confs or any(t[7] or t[8] for t in pre['atoms']) or cs.rng.random() < 0.1:
         cs.add_big(f'fconf_ok {len(rsnap["atoms"])}%nat {lst(rsnap["confs"], conf_term)} {lst([pair_term(t[7:9]) for t in pre["atoms"]])} '
                    f'{lst(confs, lambda c: lst(c, pos_term))}', (tag, 'from-conformers', len(rsnap['confs'])))
@@ -566,7 +569,7 @@ def rd_variants(smi, rng):
     c2 = Chem.Mol(rd)
     AllChem.Compute2DCoords(c2)
     out.append(('2D', c2))
-    if rng.random() < 0.3:
+    if rng.random() < 0.45:
         c3 = Chem.Mol(c2)
         for is3d in (True, False, True)[:rng.randint(1, 3)]:
             conf = Chem.Conformer(c3.GetNumAtoms())
@@ -663,6 +666,14 @@ def ch_malformed(rng):
     m = smiles('CCO')
     m._conformers = []
     out.append(('CCO|empty conformer list', m, True))
+    for name, confs in (('misses last atom', [{1: (1., 2., 3.), 2: (4., 5., 6.)}]), ('only last atom', [{3: (1., 2., 3.)}]), ('empty dict', [{}]),
+                        ('unknown key', [{1: (1., 2., 3.), 2: (4., 5., 6.), 3: (7., 8., 9.), 4: (0., 0., 0.)}]),
+                        ('other key order', [{2: (1., 2., 3.), 1: (4., 5., 6.), 3: (7., 8., 9.)}]),
+                        ('good then bad', [{1: (1., 2., 3.), 2: (4., 5., 6.), 3: (7., 8., 9.)}, {1: (1., 2., 3.)}]),
+                        ('repeated after gap', [{3: (1., 2., 3.), 1: (-0.0, 1e-9, 2.5)}])):
+        m = smiles('CCO')
+        m._conformers = confs
+        out.append((f'CCO|conformers {name}', m, name != 'other key order'))
     return out
 
 
@@ -697,7 +708,13 @@ def correspondence(ck, n_corpus):
             for vname, m in variants:
                 tag = f'{smi}|{vname}'
                 smiles_of[tag] = smi
-                rd, _ = corr_to(cs, tag, m, keep=(vname != 'renumbered+xy' or rng.random() < 0.7))
+                if vname == 'renumbered+xy' and rng.random() < 0.4:      # 3D conformers, keys in a shuffled order
+                    keys = list(m._atoms)
+                    m._conformers = [{n: (rng.uniform(-4, 4), rng.uniform(-4, 4), rng.uniform(-4, 4)) for n in rng.sample(keys, len(keys))}
+                                     for _ in range(rng.randint(1, 2))]
+                    tag += '+3D'
+                    smiles_of[tag] = smi
+                rd, _ = corr_to(cs, tag, m, keep=rng.random() < 0.65)
                 if rd is not None and rng.random() < (0.5 if full else 0.2):
                     corr_from(cs, tag + '|back', rd)           # the molecule the bridge itself built
                     smiles_of[tag + '|back'] = smi
